@@ -92,6 +92,17 @@ def code_shapes():
         a, r"void\s+amount_t::print\(std::ostream& _out, const uint_least8_t flags\) const\s*\{"))
     shapes["amount.cc:amount_t::display_precision"] = _strip_debug(function_body(
         a, r"amount_t::precision_t\s+amount_t::display_precision\(\) const\s*\{"))
+    shapes["amount.cc:amount_t::is_zero"] = _strip_debug(function_body(
+        a, r"bool\s+amount_t::is_zero\(\) const\s*\{"))
+    v = strip_comments(src("value.cc"))
+    vp = _strip_debug(function_body(v, r"void\s+value_t::print\(std::ostream&\s+_out,\s*const int\s+first_width,"
+                                       r"\s*const int\s+latter_width,\s*const uint_least8_t flags\) const\s*\{"))
+    m = re.search(r"case AMOUNT: \{ (.*?) break; \}", vp)
+    need(m, "value.cc value_t::print: AMOUNT case not found")
+    shapes["value.cc:value_t::print:AMOUNT"] = m.group(1).strip()
+    m = re.search(r"^(.*?)switch \(type\(\)\)", vp)
+    need(m, "value.cc value_t::print: prologue not found")
+    shapes["value.cc:value_t::print:prologue"] = m.group(1).strip()
     shapes["amount.cc:amount_t::in_place_roundto"] = _strip_debug(function_body(
         a, r"void\s+amount_t::in_place_roundto\(int places\)\s*\{"))
     shapes["commodity.cc:parse_symbol"] = _strip_debug(function_body(
